@@ -33,8 +33,10 @@ QUICK_SAMPLE = 6000      # cases of the thorough universe replayed in the quick 
 SESSIONS = {"quick": (128, 24), "thorough": (512, 48)}     # free-running: (sessions, requests per session)
 
 _RE_VIOL = re.compile(r"Error: Invariant (\w+) is violated by the initial state:\s*\n(?:/\\ )?l = (\d+)")
-_RE_UNIV = re.compile(r'<<\s*"(universe|auth|scope|resume)",\s*\[(.*?)\]\s*>>', re.S)
-ECHO_KEYS = ("kind", "cert", "reg", "path", "change", "present")
+_RE_UNIV = re.compile(r'<<\s*"(universe|auth|scope|resume|seq)",\s*\[(.*?)\]\s*>>', re.S)
+ECHO_KEYS = ("kind", "cert", "reg", "path", "change", "present", "steps")
+PARTS = ("auth", "scope", "resume", "seq")
+SEQ_SRC = {}     # first line index of a sequence -> the sequence as exported (for replay files)
 
 
 # ------------------------------------------------------------------------------------------------ J1 / J2
@@ -56,7 +58,7 @@ def read_lines(path):
 
 
 def exported_cases(r):
-    return [read_lines(os.path.join(r.dir, "cases_%s.ndjson" % part)) for part in ("auth", "scope", "resume")]
+    return [read_lines(os.path.join(r.dir, "cases_%s.ndjson" % part)) for part in PARTS]
 
 
 # ------------------------------------------------------------------------------------------------ J3
@@ -167,7 +169,12 @@ def to_violations(pid, objs, viol):
                       json.dumps(o["path"], sort_keys=True), o["vpc"], o["tls"], o["status"], json.dumps(o["served"]),
                       (" change=%s present=%s tls0=%s resumed=%s" % (o.get("change"), o.get("present"), o.get("tls0"), o.get("resumed"))
                        if o["kind"] == "resume" else ""), o.get("url")))
-        files = {"cases.ndjson": "\n".join(json.dumps({k: x[k] for k in ECHO_KEYS if k in x}, sort_keys=True) for x in sample) + "\n",
+        def src(x):     # a step of a sequence is replayed with its whole sequence (the history is the point)
+            if x.get("seq") in SEQ_SRC:
+                return SEQ_SRC[x["seq"]]
+            return {k: x[k] for k in ECHO_KEYS if k in x}
+        replay_lines = list(collections.OrderedDict((json.dumps(src(x), sort_keys=True), None) for x in sample))
+        files = {"cases.ndjson": "\n".join(replay_lines) + "\n",
                  "trace.ndjson": "\n".join(json.dumps(x, sort_keys=True) for x in sample) + "\n"}
         out.append(vlib.Violation(pid, sig, detail, files))
     return out
@@ -185,16 +192,29 @@ def run_harness(vh, cases_path, out_path, seed, timeout):
 
 
 def make_sessions(rnd, singles, nsess, nreq):
-    """Free-running direction: client identities taken from the exported universe (half of them genuine, half
-    anything), each with a random sequence of request URL classes of the universe."""
+    """Free-running direction: client identities taken from the exported universe (genuine ones and anything), each
+    with a random sequence of request URL classes of the universe. Half of the sessions come in PAIRS that share one
+    world: tenant X and tenant Y, each with its genuine certificate, same registry, same lease numbers, hitting the
+    same few URL coordinates on the same gateway at the same time."""
     cases = [o for o in singles if o["kind"] == "case"]
     paths = [o["path"] for o in cases]
+    seqs = [o for o in singles if o["kind"] == "seq"]
     genuine = [o for o in cases if o["cert"]["der"] == "onchain" and o["cert"]["holds"] and o["cert"]["chainLen"] == 1
                and _lookup(o["reg"], o["cert"]["cn"], o["cert"]["serial"])["state"] == "valid"
                and o["cert"]["window"] == "ok" and o["cert"]["usage"] in ("client", "both", "none")]
+    hot = [p for p in paths if p["dseq"] in ("own", "other") and p["gseq"] == "own" and p["oseq"] == "own"] or paths
     out = []
-    for n in range(nsess):
-        src = rnd.choice(genuine) if (n % 2 == 0 and genuine) else rnd.choice(cases)
+    n = 0
+    while len(out) < nsess:
+        n += 1
+        if n % 2 == 0 and seqs and len(out) + 2 <= nsess:
+            sq = rnd.choice(seqs)
+            ids = {json.dumps(st["cert"], sort_keys=True): st["cert"] for st in sq["steps"]}
+            for cert in ids.values():       # the two tenants of the sequence universe
+                out.append({"kind": "session", "world": 1000000000 + n, "cert": cert, "reg": sq["reg"],
+                            "paths": [rnd.choice(hot) for _ in range(nreq)]})
+            continue
+        src = rnd.choice(genuine) if (n % 4 == 1 and genuine) else rnd.choice(cases)
         out.append({"kind": "session", "cert": src["cert"], "reg": src["reg"], "paths": [rnd.choice(paths) for _ in range(nreq)]})
     return out
 
@@ -204,7 +224,15 @@ def execute(seed, singles, sessions, workdir, vh, t_budget):
     expected = {}
     lines = []
     i = 0
+    SEQ_SRC.clear()
     for o in singles:
+        if o["kind"] == "seq":      # one input line, one recorded line per step
+            lines.append(json.dumps(dict(o, i=i + 1)))
+            SEQ_SRC[i + 1] = o
+            for st in o["steps"]:
+                i += 1
+                expected[i] = {"kind": "case", "cert": st["cert"], "reg": o["reg"], "path": st["path"]}
+            continue
         i += 1
         expected[i] = {k: o[k] for k in ECHO_KEYS if k in o}
         lines.append(json.dumps(dict(o, i=i)))
@@ -295,12 +323,13 @@ def run(pid, tier, seed, replay):
             o = json.loads(l)
             o.setdefault("kind", "case")
             singles.append({k: o[k] for k in ECHO_KEYS if k in o})
+        nlines = sum(len(o["steps"]) if o["kind"] == "seq" else 1 for o in singles)
         objs, viol, judged, _ = execute(seed, singles, [], workdir, vh, 1200)
         violations = to_violations(pid, objs, viol)
         for inv in viol:
             vlib.log("[C09] replay: %s false on %d line(s)" % (inv, len(viol[inv])))
-        cov.update(states=max(1, len(singles)), transitions=max(1, len(singles)), traces_validated_against_impl=judged,
-                   evaluations=len(singles), distinct_nontrivial=max(2, len(singles)), rule="replay of saved cases",
+        cov.update(states=max(1, nlines), transitions=max(1, nlines), traces_validated_against_impl=judged,
+                   evaluations=nlines, distinct_nontrivial=max(2, nlines), rule="replay of saved cases",
                    samples=singles[:3], drift_steps=len(viol.get("Conforms", [])),
                    binding_selftest={"ok": True, "skipped": "replay"})
         return vlib.finish(pid, tier, seed, "model_checking", cov, t0, violations, ASSUMPTIONS)
@@ -309,12 +338,13 @@ def run(pid, tier, seed, replay):
     # both universes are model-checked completely in every tier (seconds); the tiers differ in how much of the
     # thorough universe is replayed on the real code: a seeded sample (quick) or all of it (thorough)
     cfgs = ["MC_quick.cfg", "MC_thorough.cfg"]
-    with concurrent.futures.ThreadPoolExecutor(max_workers=4) as ex:
+    with concurrent.futures.ThreadPoolExecutor(max_workers=5) as ex:
         futs = {cfg: ex.submit(j1, cfg, 1500) for cfg in cfgs}
         fut_asfound = ex.submit(j1, "MC_asfound.cfg", 900)
         fut_strict = ex.submit(j1, "MC_strict.cfg", 900)
+        fut_memory = ex.submit(j1, "MC_memory.cfg", 900)
         results = {cfg: f.result() for cfg, f in futs.items()}
-        r_asfound, r_strict = fut_asfound.result(), fut_strict.result()
+        r_asfound, r_strict, r_memory = fut_asfound.result(), fut_strict.result(), fut_memory.result()
     states = transitions = 0
     exported = {}
     for cfg in cfgs:
@@ -323,7 +353,7 @@ def run(pid, tier, seed, replay):
         u = parse_universe(r.out)
         parts = exported_cases(r)
         lines = list(collections.OrderedDict((l, None) for part in parts for l in part))
-        if (not u or [u.get(k, {}).get("n") for k in ("auth", "scope", "resume")] != [len(p) for p in parts]
+        if (not u or [u.get(k, {}).get("n") for k in PARTS] != [len(p) for p in parts]
                 or r.distinct != len(lines)):
             raise vlib.Inconclusive("J1 %s: exported %s cases (%d distinct), TLC checked %d, universe record %s" % (
                 cfg, [len(p) for p in parts], len(lines), r.distinct, u))
@@ -337,12 +367,16 @@ def run(pid, tier, seed, replay):
     if r_strict.violated != "RevocationEffective":
         raise vlib.Inconclusive("discrimination test: the strict reading (MC_strict.cfg) must violate RevocationEffective in J1, got %r" % r_strict)
     cov["asfound_model_violates"] = r_asfound.violated
+    if r_memory.violated != "SeqSound":
+        raise vlib.Inconclusive("discrimination test: a router remembering lease ids per coordinates (MC_memory.cfg) must violate SeqSound in J1, got %r" % r_memory)
     cov["strict_reading_model_violates"] = r_strict.violated
+    cov["remembering_router_model_violates"] = r_memory.violated
     quick_set = set(exported["MC_quick.cfg"])
     rest = [l for l in exported["MC_thorough.cfg"] if l not in quick_set]     # shared cases are replayed once
     if tier == "quick":
-        resume_rest = [l for l in rest if '"kind":"resume"' in l]             # the few resumption cases: always all
-        other = [l for l in rest if '"kind":"resume"' not in l]
+        small = ('"kind":"resume"', '"kind":"seq"')                           # the few resumption / sequence cases: always all
+        resume_rest = [l for l in rest if any(k in l for k in small)]
+        other = [l for l in rest if not any(k in l for k in small)]
         rest = resume_rest + rnd.sample(other, min(len(other), QUICK_SAMPLE))
     singles = [json.loads(l) for l in exported["MC_quick.cfg"] + rest]
     rnd.shuffle(singles)                 # the seed also drives which gateway/connection order a case gets
@@ -405,9 +439,10 @@ def run(pid, tier, seed, replay):
         accepted_connections=len(accepted),
         served_requests=sum(1 for o in cases if o["served"]),
         refused_handshakes=sum(1 for o in cases if not o["tls"]),
+        sequence_steps=sum(1 for o in cases if o.get("seq")),
         resumption_cases=len(resumes),
         resumed_connections=sum(1 for o in resumes if o.get("resumed")),
-        free_running={"sessions": nsess, "requests": len(sess_lines), "served": sum(1 for o in sess_lines if o["served"]),
+        free_running={"sessions": nsess, "paired_sessions_sharing_a_world": sum(1 for x in sessions if x.get("world")), "requests": len(sess_lines), "served": sum(1 for o in sess_lines if o["served"]),
                       "orphan_backend_calls": norphans},
         strict_reading_observations=len(obs),
         exhaustive=(tier == "thorough"),
